@@ -72,7 +72,7 @@ func fieldVals(rr dns.RR, steps []textStep) (string, bool) {
 			}
 		}
 		switch s.Kind {
-		case "uint", "uintalg":
+		case "uint", "uintalg", "uintttl":
 			out = append(out, fmt.Sprintf("n:%d", fv.Uint()))
 		case "name", "endstr", "tok":
 			out = append(out, "s:"+hexOrDash([]byte(fv.String())))
@@ -186,7 +186,8 @@ func textStream(c *Ctx, per int) {
 		}
 		// relative names and @ against an origin, numbers at their limits
 		for _, rd := range []string{"@", "rel", "rel.ative", "0 rel", "65535 @", "65536 rel", "255 255 255 abcd", "256 1 1 abcd", "0 0 0 rel", "1 2 3 @",
-			"00 001 0002 rel", "\"a\" \"b\"", "abcd ef01", "1 RSASHA256 2 abcd", "1 rsasha1 2 abcd", "1 ED25519 1 ab cd", "1 NOSUCH 1 ab", "1 256 1 ab", "31 8 2 ab", "4294967295 1 1 aa", "4294967296 1 1 aa", ""} {
+			"00 001 0002 rel", "\"a\" \"b\"", "abcd ef01", "1 RSASHA256 2 abcd", "1 rsasha1 2 abcd", "1 ED25519 1 ab cd", "1 NOSUCH 1 ab", "1 256 1 ab", "31 8 2 ab", "4294967295 1 1 aa", "4294967296 1 1 aa", "",
+			"ns h 1 1h 2d 3w 4m", "ns. h. 1h 1 1 1 1", "@ @ 4294967295 4294967295 1H1M 1w1d 0", "ns h 4294967296 1 1 1 1", "ns h 1 2 3 4 5 6", "ns h 1 2 3 4", "ns h 1 2 3 4 5x", "ns h 1 7102w 3 4 5"} {
 			line := "x.example. 5 IN " + tn + " " + rd + "\n"
 			parseOne("directed", structName, "example.org.", line, pl.Parse)
 		}
